@@ -58,6 +58,7 @@ struct XQ {
   K k; Q q; bool root;   // FIN && root: the value is sqrt(q), q >= 0
   XQ() : k(FIN), q(0), root(false) {}
   explicit XQ(const Q& v) : k(FIN), q(v), root(false) {}
+  explicit XQ(Q&& v) : k(FIN), q(std::move(v)), root(false) {}
   explicit XQ(K kk) : k(kk), q(0), root(false) {}
   bool fin() const { return k == FIN; }
   bool inf() const { return k == MINF || k == PINF; }
@@ -96,7 +97,9 @@ struct Ex {
   XQ v; Undef u; bool has_prod; XQ prod; bool acc_inf;   // fused ops: the intermediate product, and whether the accumulator was infinite
   Ex() : u(U_NONE), has_prod(false), acc_inf(false) {}
   explicit Ex(const XQ& x) : v(x), u(U_NONE), has_prod(false), acc_inf(false) {}
+  explicit Ex(XQ&& x) : v(std::move(x)), u(U_NONE), has_prod(false), acc_inf(false) {}
   explicit Ex(const Q& x) : v(x), u(U_NONE), has_prod(false), acc_inf(false) {}
+  explicit Ex(Q&& x) : v(std::move(x)), u(U_NONE), has_prod(false), acc_inf(false) {}
   explicit Ex(Undef uu) : v(xnan()), u(uu), has_prod(false), acc_inf(false) {}
 };
 inline Result undef_code(Undef u) {
@@ -364,14 +367,14 @@ inline Desc desc3(const XQ& t, const XQ& a, const XQ& b) { Desc d; d.t = &t; d.a
 inline Desc desce(const XQ& a, unsigned e) { Desc d; d.a = &a; d.e = e; return d; }
 inline Desc desct(const char* t) { Desc d; d.txt = t; return d; }
 
-struct Site { const char* op; std::string type; const char* pol; };
+struct Site { const char* op; const char* type; const char* pol; };   // all three interned / static strings
 
 // ---------------------------------------------------------------- non-template cores (numkernel.cc)
 // Run f in a forked child; false (and `why`) if the child died (sanitizer report, signal).
 bool survives(const std::function<void()>& f, std::string& why);
 // The oracle.  `stored` is the decoded destination (ignored when r carries V_UNREPRESENTABLE).  False if a violation was reported.
 bool verify_core(const KindInfo& K, const Site& s, Rounding_Dir dir, const char* cls, Result r, const XQ& stored, const Ex& ex, const Desc& desc);
-std::string res_class(const KindInfo& K, const Ex& ex, bool special_operand);
+const char* res_class(const KindInfo& K, const Ex& ex, bool special_operand);
 
 // thunk signatures: perform one PPL call on operands taken from type-erased std::vector<N>s, decode the destination
 typedef Result (*BinRun)(const void* xs, size_t i, const void* ys, size_t j, Rounding_Dir d, XQ& stored);
